@@ -132,6 +132,20 @@ def decStep (j : Json) : Except String Step := do
   pure { call, vars, frames, refuse, take }
 
 open Ariadne.WsHeap in
+/-- a session entry: a subscription, or `{"edit": kind, ...}` = what the owner does to the client in between -/
+def decAction (j : Json) : Except String Action := do
+  match j.getObjVal? "edit" with
+  | .ok (.str k) =>
+    match k with
+    | "init" => pure (.edit (.setInit (← optNatField j "to")))
+    | "headers" => pure (.edit (.setHeaders (← fieldNat j "to")))
+    | "origin" => pure (.edit (.setOrigin (← optStrField j "to")))
+    | "url" => pure (.edit (.setUrl (← fieldStr j "to")))
+    | "write" => pure (.edit (.write (← fieldNat j "at") (← decKvs (← field j "value"))))
+    | _ => throw s!"edit kind {k}"
+  | _ => pure (.sub (← decStep j))
+
+open Ariadne.WsHeap in
 def encObs (t : Types) : Option Obs → Json
   | none => Json.null
   | some o => Json.mkObj [
@@ -218,14 +232,15 @@ def handleLine (j : Json) : Except String Json := do
     let wsOrigin ← optStrField c "origin"
     let initPayload ← optNatField c "init"
     let ctor : WsHeap.CtorArgs := { wsUrl, wsHeaders, wsOrigin, initPayload }
-    let steps ← (← (← field j "steps").getArr?).toList.mapM decStep
+    let acts ← (← (← field j "steps").getArr?).toList.mapM decAction
+    let steps := acts.filterMap fun a => match a with | .sub st => some st | .edit _ => none
     let (v, exec, tbl) := variantOf client tracer
     let t := (Types.ofTable tbl).getD GqlWs.proto
     match WsHeap.construct store ctor with
     | none => pure (Json.mkObj [("ill_formed", "constructor")])
     | some (s0, cl) =>
       let (sEnd, clEnd, obs) : WsHeap.Store × WsHeap.ClientObj × List (Option WsHeap.Obs) :=
-        if op == "session" then WsHeap.runSeqH v exec s0 cl steps
+        if op == "session" then WsHeap.runActs v exec s0 cl acts
         else
           let sched := match (j.getObjVal? "sched") with
             | .ok (.arr a) => a.toList.filterMap fun x => x.getNat?.toOption
@@ -234,7 +249,9 @@ def handleLine (j : Json) : Except String Json := do
           (w.store, w.client, w.tasks.map fun ph => match ph with | .done o => o | _ => none)
       pure (Json.mkObj [
         ("client", Json.mkObj [("wsHeaders", cl.wsHeaders), ("fresh", Json.bool (cl.wsHeaders ≥ store.length)),
-          ("same_after", Json.bool (clEnd == cl))]),
+          ("after", Json.mkObj [("wsHeaders", clEnd.wsHeaders), ("url", clEnd.url),
+            ("origin", match clEnd.origin with | some o => Json.str o | none => Json.null),
+            ("init", match clEnd.initPayload with | some p => (p : Json) | none => Json.null)])]),
         ("known", s0.length),
         ("store", Json.arr ((sEnd.take s0.length).map fun o => enc (.obj o)).toArray),
         ("obs", Json.arr (obs.map (encObs t)).toArray)])
